@@ -406,8 +406,12 @@ impl Compiler {
                 self.compile_node(*value, ctx)?
             }
             Node::MapPattern { .. } | Node::MapKeyRebind { .. } => {
-                // Map patterns are compiled in expressions that support unpacking maps.
-                unreachable!();
+                // Map patterns are compiled in expressions that support unpacking maps,
+                // the parser reports them as errors in other positions.
+                return self.error(ErrorKind::UnexpectedNode {
+                    expected: "an expression".into(),
+                    unexpected: node.node.clone(),
+                });
             }
             Node::Self_ => {
                 // self is always in register 0
